@@ -2,26 +2,28 @@
  *      [proto ":"] ["//" if host] [user [":" passwd] "@"] [host [":" port]] [path] ["?" query]
  * from the components that are present (a port without a host gets the host "localhost").
  *
- * Three units over the same harness (one SAT instance with all of them did not finish in 200 s):
- *   unparse.frame   str preconditions, memory safety, leak check, frame, host rule, class
- *   unparse.length  length = sum of parts, capacity above it
- *   unparse.text    byte vg_k of the text = byte of the canonical concatenation
- * (the model-internal assertions - str preconditions, cut lemmas - are obligations of all three.)
+ * The specification is the ITEM SEQUENCE the harness builds from the components (function canon()): the present
+ * items in canonical order, each a component text, a separator character or the literal "//"; a separator is an
+ * item iff its component is present.  Claim: the text after unparse is the concatenation of the items.
  *
- * Tier P: the function is loop-free, nothing is unwound, every length is symbolic (< VCAP/16 per part).
- * PLAIN HARNESS (no DFCC enforce/replace): 16 replaced str calls on one path made the DFCC instance
- * 8-14 M SAT variables (> 10 GB, > 600 s; see report).  Instead the str calls are represented by the
- * GHOST-VIEW MODELS below, which are the NET_STR_VIEW contracts of contracts/url.h written as code:
- * each model asserts the contract's `requires`, then produces exactly the effects the contract's
- * `ensures` describes (length, capacity, buffer re-seated: old block freed, new block allocated; the
- * byte at ghost index vg_k of the text under construction is tracked in vg_view).  What is proved is
- * therefore "as far as the assumed str contracts allow":
- *   - no str call is made outside its assumed precondition (e.g. never an append on the (NULL,0,0) state);
- *   - the length is the sum of the present parts and their separators (component present <=> its
- *     separator emitted), the capacity stays above it;
- *   - byte vg_k of the text (vg_k arbitrary) is the byte the canonical concatenation has there;
- *   - components are neither modified nor re-seated, except host in the localhost case;
- *   - the object keeps its class (C05 type());  nothing is freed twice / used after free / leaked.
+ * Tier P: the function is loop-free, nothing is unwound (the harness' own loop over the 13 item slots has a constant
+ * bound), every length is symbolic (< VCAP/16 per part).
+ * PLAIN HARNESS (no DFCC enforce/replace): 16 replaced str calls on one path made the DFCC instance 8-14 M SAT
+ * variables (> 10 GB, > 600 s).  The str calls are the GHOST-VIEW MODELS below = the NET_STR_VIEW contracts of
+ * contracts/url.h written as code: each model asserts the contract's `requires`, then produces the effects the
+ * contract's `ensures` describes (length, capacity, buffer re-seated: old block freed, new block allocated; the byte
+ * at ghost index vg_k of the text under construction is tracked in vg_view).  Each append model also checks - and
+ * then may use - that it continues the item sequence: it is append number j, the text is seq_start[j] long and the
+ * appended piece is item j (cut: without it the solver has to relate two differently associated chains of 64-bit
+ * additions, which did not finish).  What is proved is "as far as the assumed str contracts allow":
+ *   unparse.items   every append continues the item sequence (position, length), exactly the items are appended (a
+ *                   separator iff its component), so the length is the sum of the items; capacity stays above it
+ *   unparse.text    byte vg_k (arbitrary) of the text is the byte of the concatenation of the items
+ *   unparse.frame   no str call outside its assumed precondition (never an append on the (NULL,0,0) state); components
+ *                   neither modified nor re-seated, except host in the localhost case; the object keeps its class
+ *                   (C05 type()); nothing freed twice / used after free / leaked
+ * Native replay (native: self): the same harness natively with the REAL str.c (no models), component presence and
+ * lengths from the witness, texts filled with patterns; the real text is compared with the item concatenation.
  */
 /*@unit
 name: unparse.frame
@@ -29,38 +31,101 @@ define: U_FRAME, NET_CSTR_LITERALS, VERIF_NO_ASSUMED_STR_CONTRACTS
 src: url.c
 backend: cadical
 timeout: 200
+native: self
 flags: --memory-leak-check
 funcs: spif_url_unparse, spif_obj_set_class, spif_str_done, spif_str_init_from_ptr, spif_str_append, spif_str_append_char, spif_str_append_from_ptr, spif_str_new_from_ptr
 */
 /*@unit
-name: unparse.length
-define: U_LENGTH, NET_CSTR_LITERALS, VERIF_NO_ASSUMED_STR_CONTRACTS
+name: unparse.items
+define: U_TEXT, U_ITEMS, NET_CSTR_LITERALS, VERIF_NO_ASSUMED_STR_CONTRACTS
 src: url.c
 backend: cadical
-timeout: 200
+timeout: 300
+native: self
 funcs: spif_url_unparse
 */
 /*@unit
 name: unparse.text
-define: U_TEXT, NET_CSTR_LITERALS, VERIF_NO_ASSUMED_STR_CONTRACTS
+define: U_TEXT, U_VIEW, NET_CSTR_LITERALS, VERIF_NO_ASSUMED_STR_CONTRACTS
 src: url.c
 backend: cadical
-timeout: 200
+timeout: 300
+native: self
 funcs: spif_url_unparse
 */
 #include "vprelude.h"
 #include "env_net.h"
 #include "url.h"
 
+/* ---- the item sequence (specification) ------------------------------------------------------------ */
+#define NITEM 13
+/* slot numbers in canonical order */
+enum { I_PROTO, I_PROTO_COLON, I_SLASHES, I_USER, I_PW_COLON, I_PW, I_AT, I_HOST, I_PORT_COLON, I_PORT, I_PATH, I_QM, I_QUERY };
+typedef struct { _Bool present; const char *src; size_t n; } item_t;     /* n bytes at src, if present */
+item_t seq[NITEM]; size_t seq_start[NITEM + 1];
+static const char LIT_COLON[] = ":", LIT_SLASHES[] = "//", LIT_AT[] = "@", LIT_QM[] = "?", LIT_LOCALHOST[] = "localhost";
+#define ITEM(i, p, s_, n_) do { seq[i].present = (p); seq[i].src = (s_); seq[i].n = (n_); \
+                                seq_start[(i) + 1] = seq_start[i] + (seq[i].present ? seq[i].n : 0); } while (0)
+#define TXT_OF(p) ((p) ? (const char *) (p)->s : (const char *) 0)
+#define LEN0(p)   ((p) ? (size_t) (p)->len : (size_t) 0)
+/* canonical order; a separator iff its component; a port without a host brings the host "localhost" */
+static void canon(spif_url_t u)
+{
+    _Bool lh = (u->host == NULL && u->port != NULL), host = (u->host != NULL) || lh;
+    seq_start[0] = 0;
+    ITEM(I_PROTO, u->proto != NULL, TXT_OF(u->proto), LEN0(u->proto));
+    ITEM(I_PROTO_COLON, u->proto != NULL, LIT_COLON, 1);
+    ITEM(I_SLASHES, host, LIT_SLASHES, 2);
+    ITEM(I_USER, u->user != NULL, TXT_OF(u->user), LEN0(u->user));
+    ITEM(I_PW_COLON, u->user != NULL && u->passwd != NULL, LIT_COLON, 1);
+    ITEM(I_PW, u->user != NULL && u->passwd != NULL, TXT_OF(u->passwd), LEN0(u->passwd));
+    ITEM(I_AT, u->user != NULL, LIT_AT, 1);
+    ITEM(I_HOST, host, lh ? LIT_LOCALHOST : TXT_OF(u->host), lh ? 9 : LEN0(u->host));
+    ITEM(I_PORT_COLON, host && u->port != NULL, LIT_COLON, 1);
+    ITEM(I_PORT, host && u->port != NULL, TXT_OF(u->port), LEN0(u->port));
+    ITEM(I_PATH, u->path != NULL, TXT_OF(u->path), LEN0(u->path));
+    ITEM(I_QM, u->query != NULL, LIT_QM, 1);
+    ITEM(I_QUERY, u->query != NULL, TXT_OF(u->query), LEN0(u->query));
+}
+
+#ifndef VERIF_NATIVE
 /* ---- ghost-view models of the assumed str contracts ------------------------------------------- */
 spif_str_t vg_view_of;      /* the str whose text is observed (the URL's own text) */
 spif_char_t vg_view;        /* byte vg_k of that text, meaningful while vg_k < len */
-int vg_cls_writes;          /* number of times a str initialiser re-stamped the observed object's class */
+_Bool vg_done[NITEM];       /* item i has been appended */
+int vg_last;                /* slot of the last append (-1: none yet) */
+spif_url_t vg_u;            /* the URL object (to recognise which component is being appended) */
+_Bool vg_lh;                /* the host item is the literal "localhost" (its text lives in a new object) */
+/* which item a call appends, recognised from its argument and from what was appended last (each call site of
+ * spif_url_unparse appends one fixed item; the index is concrete on every path, so the tables are read at constants) */
+static int slot_of_str(spif_str_t other)
+{
+    if (other == vg_u->proto) return I_PROTO;   if (other == vg_u->user) return I_USER;   if (other == vg_u->passwd) return I_PW;
+    if (other == vg_u->host) return I_HOST;     if (other == vg_u->port) return I_PORT;   if (other == vg_u->path) return I_PATH;
+    if (other == vg_u->query) return I_QUERY;
+    return -1;
+}
+static int slot_of_char(spif_char_t c)
+{
+    if (c == '@') return I_AT;
+    if (c == '?') return I_QM;
+    if (c == ':') return (vg_last == I_PROTO) ? I_PROTO_COLON : (vg_last == I_USER) ? I_PW_COLON : (vg_last == I_HOST) ? I_PORT_COLON : -1;
+    return -1;
+}
 
 /* cut: a fact the model's own arithmetic establishes is asserted and then assumed, so that the
  * solver need not re-derive it through the whole chain of additions (sound: the assert is checked) */
 #define M_CUT(c, txt) do { __CPROVER_assert((c), txt); __CPROVER_assume(c); } while (0)
+/* the byte this append puts at ghost position vg_k is the byte the item has there (by the assumed contracts later
+ * appends keep it: vg_view is not assigned again, vg_written counts the assignments) */
+#define M_BYTE(i_, expected) __CPROVER_assert(vg_view == (expected), "text byte vg_k is the byte of the concatenation of the items")
+unsigned vg_written;
 #define M_STATE_OK(p) ((p) != NULL && (p)->s != NULL && (p)->len >= 0 && (p)->len < (p)->size && (p)->size <= VCAP)
+/* this append is item i_: it starts where the item starts and appends the item's n bytes */
+#define M_ITEM(i_, n_) do { M_CUT((i_) >= 0 && (i_) < NITEM && seq[i_].present && !vg_done[i_], "each append is an item of the canonical text, appended once"); \
+    M_CUT((size_t) self->len == seq_start[i_] && (size_t) (n_) == seq[i_].n, \
+          "each append continues the canonical text: it starts at the item's offset and has the item's length"); \
+    vg_done[i_] = 1; vg_last = (i_); } while (0)
 
 /* obj.c:386 (trivial setter, written out) */
 spif_bool_t spif_obj_set_class(spif_obj_t self, spif_class_t cls)
@@ -82,7 +147,6 @@ spif_bool_t spif_str_init_from_ptr(spif_str_t self, spif_charptr_t old)
 {
     __CPROVER_assert(self != NULL && VCSTR_OK(old), "requires of spif_str_init_from_ptr");
     self->parent.cls = SPIF_CLASS(SPIF_STRCLASS_VAR(str));          /* str.c:186 re-stamps the class */
-    if (self == vg_view_of) vg_cls_writes++;
     self->len = VCSTR_SHORT_LEN(old);
     self->size = self->len + 1;
     self->s = malloc(self->size);
@@ -96,9 +160,11 @@ spif_str_t spif_str_new_from_ptr(spif_charptr_t old)
     r->parent.cls = SPIF_CLASS(SPIF_STRCLASS_VAR(str));
     r->len = VCSTR_SHORT_LEN(old);
     r->size = r->len + 1;
-    r->s = malloc(r->size);
-    r->s[r->len] = 0;
-    if (vg_k2 < (size_t) r->len) r->s[vg_k2] = old[vg_k2];       /* bytes by a second ghost index */
+    r->s = malloc(10);                                              /* short literal: copied byte for byte */
+    __CPROVER_assert(r->size <= 10, "model: short literal");
+    r->s[0] = old[0]; if (r->len > 0) r->s[1] = old[1]; if (r->len > 1) r->s[2] = old[2]; if (r->len > 2) r->s[3] = old[3];
+    if (r->len > 3) r->s[4] = old[4]; if (r->len > 4) r->s[5] = old[5]; if (r->len > 5) r->s[6] = old[6];
+    if (r->len > 6) r->s[7] = old[7]; if (r->len > 7) r->s[8] = old[8]; if (r->len > 8) r->s[9] = old[9];
     return r;
 }
 spif_bool_t spif_str_append(spif_str_t self, spif_str_t other)
@@ -106,13 +172,18 @@ spif_bool_t spif_str_append(spif_str_t self, spif_str_t other)
     __CPROVER_assert(M_STATE_OK(self), "requires of spif_str_append: self in the non-empty state");
     __CPROVER_assert(M_STATE_OK(other) && other->s[other->len] == 0, "requires of spif_str_append: other valid");
     __CPROVER_assert(self == vg_view_of, "view model: the appended-to string is the observed one");
+    int it = slot_of_str(other);
+    M_ITEM(it, other->len);
     if (other->len != 0) {
         spif_stridx_t olen = self->len;
         self->size += other->size - 1;
         free(self->s);
         self->s = malloc(self->size);
         self->len += other->len;
-        if (vg_k >= (size_t) olen && vg_k < (size_t) self->len) vg_view = other->s[vg_k - (size_t) olen];
+        if (vg_k >= (size_t) olen && vg_k < (size_t) self->len) {
+            vg_view = other->s[vg_k - (size_t) olen]; vg_written++;
+            M_BYTE(it, (vg_lh && it == I_HOST) ? LIT_LOCALHOST[vg_k - seq_start[it]] : seq[it].src[vg_k - seq_start[it]]);
+        }
     }
     M_CUT(self->len < self->size, "ensures of spif_str_append: terminator fits");
     return TRUE;
@@ -121,13 +192,15 @@ spif_bool_t spif_str_append_char(spif_str_t self, spif_char_t c)
 {
     __CPROVER_assert(M_STATE_OK(self) && self->size < VCAP, "requires of spif_str_append_char: self in the non-empty state");
     __CPROVER_assert(self == vg_view_of, "view model: the appended-to string is the observed one");
+    int it = slot_of_char(c);
+    M_ITEM(it, 1);
     self->len++;
     if (self->size <= self->len) {
         self->size++;
         free(self->s);
         self->s = malloc(self->size);
     }
-    if (vg_k == (size_t) self->len - 1) vg_view = c;
+    if (vg_k == (size_t) self->len - 1) { vg_view = c; vg_written++; M_BYTE(it, seq[it].src[0]); }
     M_CUT(self->len < self->size, "ensures of spif_str_append_char: terminator fits");
     return TRUE;
 }
@@ -137,91 +210,84 @@ spif_bool_t spif_str_append_from_ptr(spif_str_t self, spif_charptr_t other)
     __CPROVER_assert(VCSTR_OK(other), "requires of spif_str_append_from_ptr: other is a C string");
     __CPROVER_assert(self == vg_view_of, "view model: the appended-to string is the observed one");
     spif_stridx_t n = VCSTR_SHORT_LEN(other);
+    M_ITEM(I_SLASHES, n);
+    M_CUT(n == 2 && other[0] == '/' && other[1] == '/', "each append continues the canonical text: the appended literal is \"//\"");
     if (n != 0) {
         spif_stridx_t olen = self->len;
         self->size += n;
         free(self->s);
         self->s = malloc(self->size);
         self->len += n;
-        if (vg_k >= (size_t) olen && vg_k < (size_t) self->len) vg_view = other[vg_k - (size_t) olen];
+        if (vg_k >= (size_t) olen && vg_k < (size_t) self->len) { vg_view = other[vg_k - (size_t) olen]; vg_written++; M_BYTE(I_SLASHES, LIT_SLASHES[vg_k - seq_start[I_SLASHES]]); }
     }
     M_CUT(self->len < self->size, "ensures of spif_str_append_from_ptr: terminator fits");
     return TRUE;
 }
+# include "src/url.c"
+#else
+# include "rawsrc/url.c"
+#endif
 
-#include "src/url.c"
-
+#ifndef VCAP
+# define VCAP 0x3fffffffL          /* (native replay: env.h is not included) */
+#endif
 #define UCAP (VCAP / 16)
-/* lengths of the parts (components are unchanged: asserted below) */
-#define LEN0(p)   ((p) ? (size_t) (p)->len : (size_t) 0)
-#define O1(u) ((u)->proto ? LEN0((u)->proto) + 1 : (size_t) 0)
-#define O2(u) (O1(u) + ((u)->host ? 2 : 0))
-#define O3(u) (O2(u) + ((u)->user ? LEN0((u)->user) + ((u)->passwd ? 1 + LEN0((u)->passwd) : 0) + 1 : 0))
-#define O4(u) (O3(u) + ((u)->host ? LEN0((u)->host) + ((u)->port ? 1 + LEN0((u)->port) : 0) : 0))
-#define O5(u) (O4(u) + LEN0((u)->path))
-#define O6(u) (O5(u) + ((u)->query ? 1 + LEN0((u)->query) : 0))
-
-/* one component: absent, or a str with a buffer of symbolic size holding a terminated text */
-static spif_str_t mk_comp(void)
+/* one component: absent, or a str with a buffer of symbolic size holding a terminated text
+ * (inputs come from harness() through VND; natively the texts get a recognisable pattern and lengths are capped) */
+#define NAT_CAP 64
+static spif_str_t mk_comp(_Bool has, long len, long size, char pat)
 {
-    if (nondet_bool()) return NULL;
-    spif_str_t p = malloc(sizeof(spif_const_str_t));
+    spif_str_t p; long i;
+    if (!has) return NULL;
+    p = malloc(sizeof(spif_const_str_t));
     p->parent.cls = SPIF_CLASS(SPIF_STRCLASS_VAR(str));
-    p->len = nondet_long(); p->size = nondet_long();
+    p->len = len; p->size = size;
     __CPROVER_assume(p->len >= 0 && p->len < p->size && p->size <= UCAP);
+#ifdef VERIF_NATIVE              /* the witness' lengths may be huge: replay the same shape with short texts */
+    if (len > NAT_CAP / 2) len = NAT_CAP / 2 - (len % 7);
+    if (size - p->len > NAT_CAP / 2) size = len + 1 + (size % 5); else size = len + (size - p->len);
+    p->len = len; p->size = size;
+#endif
     p->s = malloc(p->size);
+#ifdef VERIF_NATIVE
+    for (i = 0; i < len; i++) p->s[i] = (char) (pat + i % 10);
+#endif
     p->s[p->len] = 0;
     return p;
 }
+#define ANY_COMP(n, pat) mk_comp(VND(bool, has_ ## n), VND(long, len_ ## n), VND(long, size_ ## n), pat)
 static void rm_comp(spif_str_t p) { if (p) { free(p->s); free(p); } }
-
-/* byte k of the canonical concatenation, by cases (k < total) */
-static spif_char_t expect_at(spif_url_t u, size_t k)
-{
-    if (k < O1(u)) return (k < LEN0(u->proto)) ? u->proto->s[k] : ':';
-    if (k < O2(u)) return '/';
-    if (k < O3(u)) {
-        size_t j = k - O2(u);
-        if (j < LEN0(u->user)) return u->user->s[j];
-        if (u->passwd) {
-            if (j == LEN0(u->user)) return ':';
-            if (j < LEN0(u->user) + 1 + LEN0(u->passwd)) return u->passwd->s[j - LEN0(u->user) - 1];
-        }
-        return '@';
-    }
-    if (k < O4(u)) {
-        size_t j = k - O3(u);
-        if (j < LEN0(u->host)) return u->host->s[j];
-        if (j == LEN0(u->host)) return ':';
-        return u->port->s[j - LEN0(u->host) - 1];
-    }
-    if (k < O5(u)) return u->path->s[k - O4(u)];
-    if (k == O5(u)) return '?';
-    return u->query->s[k - O5(u) - 1];
-}
 
 void harness(void)
 {
     /* any URL object: text in either legal state, every component absent or present */
-    libast_debug_level = nondet_uint();          /* every run-time debug level */
+    libast_debug_level = VND(uint, debug_level);          /* every run-time debug level */
     spif_url_t u = malloc(sizeof(spif_const_url_t));
+#ifdef VERIF_NATIVE
+    spif_class_t cls0 = SPIF_CLASS_VAR(url);
+#else
     spif_class_t cls0 = SPIF_CLASS_VAR(url) = &u_class;
     SPIF_STRCLASS_VAR(str) = (spif_strclass_t) nondet_ptr();
+#endif
     NSTR(u)->parent.cls = cls0;
-    if (nondet_bool()) {
+    if (VND(bool, text_empty)) {
         NSTR(u)->s = NULL; NSTR(u)->len = 0; NSTR(u)->size = 0;
     } else {
-        NSTR(u)->len = nondet_long(); NSTR(u)->size = nondet_long();
-        __CPROVER_assume(NSTR(u)->len >= 0 && NSTR(u)->len < NSTR(u)->size && NSTR(u)->size <= UCAP);
-        NSTR(u)->s = malloc(NSTR(u)->size);
+        spif_str_t t = mk_comp(1, VND(long, len_text), VND(long, size_text), 'T');
+        NSTR(u)->s = t->s; NSTR(u)->len = t->len; NSTR(u)->size = t->size; free(t);
     }
-    u->proto = mk_comp(); u->user = mk_comp(); u->passwd = mk_comp(); u->host = mk_comp();
-    u->port = mk_comp(); u->path = mk_comp(); u->query = mk_comp();
+    u->proto = ANY_COMP(proto, 'a'); u->user = ANY_COMP(user, 'b'); u->passwd = ANY_COMP(passwd, 'c'); u->host = ANY_COMP(host, 'd');
+    u->port = ANY_COMP(port, '0'); u->path = ANY_COMP(path, 'e'); u->query = ANY_COMP(query, 'f');
     spif_const_url_t before = *u;
     size_t lens[7] = { LEN0(u->proto), LEN0(u->user), LEN0(u->passwd), LEN0(u->host), LEN0(u->port), LEN0(u->path), LEN0(u->query) };
-    spif_char_t probe = 0; spif_str_t probed = NULL; size_t pk = nondet_size_t();     /* a byte of some component */
+    spif_char_t probe = 0; spif_str_t probed = NULL; size_t pk = VND(size_t, probe_k);     /* a byte of some component */
     if (u->path && pk < (size_t) u->path->len) { probed = u->path; probe = u->path->s[pk]; }
-    vg_view_of = NSTR(u); vg_cls_writes = 0;
+    canon(u);                                             /* the specification: items of the canonical text */
+    vg_k = VND(size_t, k); vg_k2 = VND(size_t, k2);
+#ifndef VERIF_NATIVE
+    vg_view_of = NSTR(u); vg_u = u; vg_last = -1; vg_written = 0; vg_lh = (u->host == NULL && u->port != NULL);
+    { unsigned j; for (j = 0; j < NITEM; j++) vg_done[j] = 0; }
+#endif
 
     spif_bool_t r = spif_url_unparse(u);
 
@@ -243,20 +309,36 @@ void harness(void)
     } else {
         __CPROVER_assert(u->host == before.host && LEN0(u->host) == lens[3], "host otherwise unchanged");
     }
-#endif
-#ifdef U_LENGTH
-    /* text: length = sum of present parts and their separators; capacity above it; buffer present */
-    __CPROVER_assert((size_t) NSTR(u)->len == O6(u), "text length is the sum of the present components and their separators");
-    __CPROVER_assert(NSTR(u)->len < NSTR(u)->size && NSTR(u)->s != NULL, "text has room for its terminator");
-#endif
-#ifdef U_TEXT
-    /* text: byte vg_k (arbitrary) is the byte of the canonical concatenation */
-    if (vg_k < O6(u))
-        __CPROVER_assert(vg_view == expect_at(u, vg_k), "text byte vg_k is the byte of the canonical concatenation");
-#endif
-#ifdef U_FRAME
     /* class: a URL stays a URL (C05 type()) */
     __CPROVER_assert(NSTR(u)->parent.cls == cls0, "unparse leaves the object's class alone");
+#endif
+#ifdef U_TEXT
+    /* text = concatenation of the items */
+# if defined(U_ITEMS) || defined(VERIF_NATIVE)
+    __CPROVER_assert((size_t) NSTR(u)->len == seq_start[NITEM], "text length is the sum of the items (present components and their separators)");
+    __CPROVER_assert(NSTR(u)->len < NSTR(u)->size && NSTR(u)->s != NULL, "text has room for its terminator");
+# endif
+# ifdef VERIF_NATIVE
+    {
+        unsigned j; size_t i;
+        for (j = 0; j < NITEM; j++)
+            for (i = 0; seq[j].present && i < seq[j].n && seq_start[j] + i < (size_t) NSTR(u)->len; i++)
+                __CPROVER_assert(NSTR(u)->s[seq_start[j] + i] == seq[j].src[i], "text byte vg_k is the byte of the concatenation of the items");
+        __CPROVER_assert(NSTR(u)->s[NSTR(u)->len] == 0, "text byte vg_k is the byte of the concatenation of the items");
+    }
+# else
+    {
+        unsigned j;
+#  ifdef U_ITEMS
+        for (j = 0; j < NITEM; j++)
+            __CPROVER_assert(vg_done[j] == seq[j].present, "unparse appends exactly the items of the canonical text (a separator iff its component)");
+#  endif
+#  ifdef U_VIEW
+        /* every position below the final length was written by exactly one append (whose byte was checked there) */
+        __CPROVER_assert(vg_written == ((vg_k < (size_t) NSTR(u)->len) ? 1u : 0u), "text byte vg_k is the byte of the concatenation of the items: written once iff inside the text");
+#  endif
+    }
+# endif
 #endif
     VERIF_CANARY();
     /* ownership: deleting what the caller owns leaves nothing behind (--memory-leak-check) */
